@@ -260,6 +260,10 @@ func parseContractText(text, path, pkgPath string) ([]*FuncContract, error) {
 		case word == "trusted":
 			cur.Trusted = true
 			last = nil
+		case word == "bounded":
+			// bounded <n>: number of generated inputs of the bounded stand-in search in the quick tier (thorough: x25)
+			cur.Bounded = strings.TrimSpace(rest)
+			last = nil
 		case word == "trust":
 			// trust nonnil <pkg.Interface>: a call of a method of that interface that returns a nil error returns
 			// non-nil pointer results (the Go convention the code relies on without checking); listed as trusted
